@@ -9,7 +9,6 @@ import (
 	"github.com/paulmach/orb"
 	"github.com/paulmach/orb/encoding/mvt"
 	"github.com/paulmach/orb/geojson"
-	"github.com/paulmach/orb/planar"
 	"github.com/paulmach/orb/simplify"
 
 	"verif/lib/ev"
@@ -38,7 +37,7 @@ func subseq(a, b orb.LineString) bool {
 
 func distToLine(ls orb.LineString, p orb.Point) float64 {
 	if len(ls) == 1 {
-		return planar.Distance(ls[0], p)
+		return dist(ls[0], p)
 	}
 	best := math.Inf(1)
 	for i := 1; i < len(ls); i++ {
@@ -77,7 +76,7 @@ func thresholdSet(crit []float64) []float64 {
 	return append(out, u[len(u)-1]+1)
 }
 
-func halfDistance(a, b orb.Point) float64 { return planar.Distance(a, b) / 2 }
+func halfDistance(a, b orb.Point) float64 { return dist(a, b) / 2 }
 
 func same(a, b orb.LineString) bool {
 	if len(a) != len(b) {
@@ -89,6 +88,23 @@ func same(a, b orb.LineString) bool {
 		}
 	}
 	return true
+}
+
+// dist is the check's own euclidean distance (the one the checks pass to the library as DistanceFunc and use in their oracles).
+func dist(a, b orb.Point) float64 {
+	dx, dy := a[0]-b[0], a[1]-b[1]
+	return math.Sqrt(dx*dx + dy*dy)
+}
+
+// distSeg is the check's own distance from p to the segment ab.
+func distSeg(a, b, p orb.Point) float64 {
+	dx, dy := b[0]-a[0], b[1]-a[1]
+	if dx == 0 && dy == 0 {
+		return dist(a, p)
+	}
+	t := ((p[0]-a[0])*dx + (p[1]-a[1])*dy) / (dx*dx + dy*dy)
+	t = math.Max(0, math.Min(1, t))
+	return dist(orb.Point{a[0] + t*dx, a[1] + t*dy}, p)
 }
 
 func main() {
@@ -104,9 +120,9 @@ func main() {
 	var dcrit, rcrit []float64
 	for a := 0; a < 16; a++ {
 		for b := 0; b < 16; b++ {
-			rcrit = append(rcrit, planar.Distance(gp(a), gp(b)))
+			rcrit = append(rcrit, dist(gp(a), gp(b)))
 			for p := 0; p < 16; p++ {
-				dcrit = append(dcrit, planar.DistanceFromSegment(gp(a), gp(b), gp(p)))
+				dcrit = append(dcrit, distSeg(gp(a), gp(b), gp(p)))
 			}
 		}
 	}
@@ -183,7 +199,7 @@ func main() {
 		// Radial
 		for _, t := range rT {
 			runs[c.Worker]++
-			out := simplify.Radial(planar.Distance, t).LineString(in.Clone())
+			out := simplify.Radial(dist, t).LineString(in.Clone())
 			what := fmt.Sprintf("Radial(%v).LineString", t)
 			// the distance function is the caller's: the same metric in other units (halved, with the halved
 			// threshold - both exact in floating point) must make the same decisions
@@ -196,14 +212,14 @@ func main() {
 			}
 			if n > 2 {
 				for i := 1; i < len(out)-1; i++ {
-					if planar.Distance(out[i-1], out[i]) <= t {
+					if dist(out[i-1], out[i]) <= t {
 						c.Failf("radial-spacing", "%s(%v) = %v keeps consecutive vertices %v,%v not farther apart than the threshold", what, in, out, out[i-1], out[i])
 						return
 					}
 				}
 			}
 			if closed && n > 2 {
-				if rg := simplify.Radial(planar.Distance, t).Ring(orb.Ring(in.Clone())); !same(orb.LineString(rg), out) {
+				if rg := simplify.Radial(dist, t).Ring(orb.Ring(in.Clone())); !same(orb.LineString(rg), out) {
 					c.Failf("radial-ring", "Radial(%v).Ring(%v) = %v, LineString gives %v", t, in, rg, out)
 					return
 				}
@@ -351,7 +367,7 @@ func main() {
 		}{
 			{"DouglasPeucker(0.6)", simplify.DouglasPeucker(0.6), simplify.DouglasPeucker(0.6)},
 			{"DouglasPeucker(5)", simplify.DouglasPeucker(5), simplify.DouglasPeucker(5)},
-			{"Radial(1.2)", simplify.Radial(planar.Distance, 1.2), simplify.Radial(planar.Distance, 1.2)},
+			{"Radial(1.2)", simplify.Radial(dist, 1.2), simplify.Radial(dist, 1.2)},
 			{"VisvalingamThreshold(0.6)", simplify.VisvalingamThreshold(0.6), simplify.VisvalingamThreshold(0.6)},
 			{"VisvalingamKeep(5)", simplify.VisvalingamKeep(5), simplify.VisvalingamKeep(5)},
 			{"Visvalingam(2,4)", simplify.Visvalingam(2, 4), simplify.Visvalingam(2, 4)},
@@ -377,7 +393,7 @@ func main() {
 	}
 	simps := []simp{
 		{"DouglasPeucker(0.6)", simplify.DouglasPeucker(0.6)}, {"DouglasPeucker(5)", simplify.DouglasPeucker(5)},
-		{"Radial(1.2)", simplify.Radial(planar.Distance, 1.2)}, {"Radial(9)", simplify.Radial(planar.Distance, 9)},
+		{"Radial(1.2)", simplify.Radial(dist, 1.2)}, {"Radial(9)", simplify.Radial(dist, 9)},
 		{"VisvalingamThreshold(0.6)", simplify.VisvalingamThreshold(0.6)}, {"VisvalingamKeep(3)", simplify.VisvalingamKeep(3)}, {"VisvalingamThreshold(50)", simplify.VisvalingamThreshold(50)},
 	}
 	outerCat := []orb.Ring{
@@ -449,14 +465,14 @@ func main() {
 			var col, wcol orb.Collection
 			for _, p := range pairs {
 				g := sp.s.Simplify(orb.Clone(p.g))
-				if !orb.Equal(g, p.want) {
+				if !refgeom.Equal(g, p.want) {
 					c.Failf("generic", "%s.Simplify(%v) = %v, the typed function gives %v", sp.name, p.g, g, p.want)
 				}
 				col = append(col, orb.Clone(p.g))
 				wcol = append(wcol, p.want)
 			}
 			gc := sp.s.Simplify(col)
-			if !orb.Equal(gc, wcol) {
+			if !refgeom.Equal(gc, wcol) {
 				c.Failf("collection", "%s.Simplify(collection) = %v, want member-wise %v", sp.name, gc, wcol)
 			}
 			layer := &mvt.Layer{Features: []*geojson.Feature{geojson.NewFeature(poly.Clone()), geojson.NewFeature(orb.LineString{}), geojson.NewFeature(ls.Clone())}}
@@ -476,7 +492,7 @@ func main() {
 				}
 				same := len(l.Features) == len(wl)
 				for fi := 0; same && fi < len(wl); fi++ {
-					same = orb.Equal(l.Features[fi].Geometry, wl[fi].Geometry)
+					same = refgeom.Equal(l.Features[fi].Geometry, wl[fi].Geometry)
 				}
 				if !same || len(single.Features) != len(layer.Features) {
 					c.Failf("mvt-layers-simplify", "%s: Layers.Simplify and Layer.Simplify disagree on layer %d (%d vs %d features)", sp.name, li, len(l.Features), len(wl))
@@ -485,11 +501,11 @@ func main() {
 			}
 			if len(layer.Features) == 2 {
 				// the feature behind a dropped one is simplified like any other
-				if wl := sp.s.Simplify(ls.Clone()); !orb.Equal(layer.Features[1].Geometry, wl) {
+				if wl := sp.s.Simplify(ls.Clone()); !refgeom.Equal(layer.Features[1].Geometry, wl) {
 					c.Failf("mvt-layers-simplify", "%s: the feature following a dropped feature comes back as %v, simplified alone it is %v", sp.name, layer.Features[1].Geometry, wl)
 				}
 			}
-			if len(layer.Features) != 2 || !orb.Equal(layer.Features[0].Geometry, want) {
+			if len(layer.Features) != 2 || !refgeom.Equal(layer.Features[0].Geometry, want) {
 				c.Failf("mvt-layers-simplify", "%s: Layers.Simplify kept %d features, first = %v, want 2 and %v", sp.name, len(layer.Features), layer.Features[0].Geometry, want)
 			}
 			if len(sh) != len(hole) || len(so) != len(outer) {
